@@ -238,6 +238,28 @@ def main(tier: str) -> int:
                          {"weights_optimizer": wo.__name__, "seed": chk.seed * 10 + seed, "shape": list(w.shape), "min": float(np.min(w)), "max": float(np.max(w))},
                          {"fn": "train_net_weights", "optimizer": wo.__name__})
 
+    # the SAME estimator instance re-fitted after set_params: the fitted net is the architecture requested NOW
+    import estim as E_
+    E_.install_validate_data()
+    Xf, yf = E_.data_regression(n=10, d=3, seed=chk.seed)
+    Xc_, yc_ = E_.data_classification(n=12, d=3, labels=("a", "b", "c"), seed=chk.seed)
+    for cls_, (Xd, yd), nout_ in ((MLPEARegressor, (Xf, yf), 1), (MLPEAClassifier, (Xc_, yc_), 3)):
+        est_ = cls_(n_iter=2, pop_size=4, hidden_layers=(3,), activation="sigma", offset=True, random_state=chk.seed + 2)
+        for step, (hl_, act_) in enumerate((((3,), "sigma"), ((2, 2), "sigma"), ((2, 2), "relu"), ((), "relu"), ((4,), "tanh"))):
+            est_.set_params(hidden_layers=hl_, activation=act_)
+            est_.fit(Xd, yd)
+            net_ = est_.get_net()
+            ref_ = cls_(n_iter=2, pop_size=4, hidden_layers=hl_, activation=act_, offset=True)._defitne_net(4, nout_)
+            chk.count("mlp_refit")
+            chk.case(("mlp_refit", cls_.__name__, step))
+            ca, cb = NL.canon_net(NL.net_json(net_)), NL.canon_net(NL.net_json(ref_))
+            same_arch = ca["conns"] == cb["conns"] and ca["hidden"] == cb["hidden"] and ca["outputs"] == cb["outputs"]
+            same_act = ca["activs"] == cb["activs"]
+            if not (same_arch and same_act):
+                chk.fail("after a re-fit the fitted net is not the layered architecture / activation requested by the current parameters",
+                         {"estimator": cls_.__name__, "fit_number": step + 1, "hidden_layers": list(hl_), "activation": act_,
+                          "connections_fitted": len(net_._connects), "connections_requested": len(ref_._connects)}, {"fn": "mlp_builder", "clause": "refit"})
+                break
     # non-default settings of the real-coded weight optimizers (two-difference strategies, large F): the repaired trial
     # vectors, hence the trained weights, still lie in [-10, 10]; a net with a relu block rewards large weights of either sign
     est_r = MLPEARegressor(n_iter=3, pop_size=6, hidden_layers=(3,), offset=True, activation="relu")
